@@ -33,6 +33,7 @@ def run(ctx, rep):
     e5_locks.check_union_canonical(facts, rep)
     rep.rule('E31', e31_decomp.__doc__.strip().split('\n')[0])
     e31_decomp.run(facts, rep)
+    e31_decomp.check_triang_storage(facts, rep)
     rep.rule('E17', e17_schur.__doc__.strip().split('\n')[0])
     e17_schur.run(facts, rep)
     sites = [s for s in summ.rayon_sites if any(s[0].startswith(p) for p in ('yui_matrix::sparse::triang', 'yui_matrix::sparse::schur', 'yui_matrix::sparse::decomp'))]
